@@ -57,8 +57,8 @@ SITE = {k: 'csep.utils.readers.' + v for k, v in READER.items()}
 LONS = ['-179.99', '179.99', '-0.01', '0.01', '0', '12.345']
 LATS = ['-89.99', '89.99', '0', '45.5']
 DEPTHS = ['0', '10.5', '699.9']
-MAGS = ['0.1', '5.25', '9.5']
-MOMENTS = [[20, '0.001'], [23, '1.312'], [29, '5.300']]      # NDK: magnitude is carried by exponent + scalar moment
+MAGS = ['0.1', '5.25', '9.5', '7.75']
+MOMENTS = [[20, '0.001'], [23, '1.312'], [29, '5.300'], [25, '531.200']]      # NDK: magnitude is carried by exponent + scalar moment
 # thorough adds these letters to the full product (quick letters stay a prefix, so thorough is a strict superset)
 LONS_T = LONS + ['-180', '180', '-122.42']
 LATS_T = LATS + ['-90', '90']
